@@ -42,6 +42,8 @@ impl SwiftField for Field90D {
     where
         Self: Sized,
     {
+        super::swift_utils::require_ascii(input, "Field 90D")?;
+
         let mut remaining = input;
 
         // Parse number of transactions (5n)
@@ -145,6 +147,8 @@ impl SwiftField for Field90C {
     where
         Self: Sized,
     {
+        super::swift_utils::require_ascii(input, "Field 90C")?;
+
         let mut remaining = input;
 
         // Parse number of transactions (5n)
